@@ -26,6 +26,7 @@ ASSUMPTIONS = ['CPython 3.12 executes the instrumented program like the original
 COMPOUND_KINDS = {'param', 'for', 'with', 'except', 'comp', 'walrus', 'import', 'star', 'def', 'class', 'annassign'}
 
 
+@core.crash_guard({'checked_reads': 0, 'nontrivial': True, 'runs': 0, 'exhaustive': False, 'skipped': None})
 def check_program(prog, cap, stats=None):
     """Returns (problems, info). problems: list of (signature, detail)."""
     from supp import assistant
